@@ -4,6 +4,10 @@ pub mod c04;
 pub mod c11;
 pub mod c12;
 pub mod c13;
+pub mod c15;
+pub mod c16;
+pub mod c17;
+pub mod c19;
 pub mod val;
 pub mod val_enum;
 
@@ -20,6 +24,10 @@ pub fn all() -> Vec<Box<dyn Prop>> {
         Box::new(c11::C11),
         Box::new(c12::C12),
         Box::new(c13::C13),
+        Box::new(c15::C15),
+        Box::new(c16::C16),
+        Box::new(c17::C17),
+        Box::new(c19::C19),
     ]
 }
 
